@@ -201,9 +201,17 @@ def w2(e: Engine, rep: Report):
     # which groups are separator / code: from recv_reply's use of them
     sep_g = code_g = None
     marker = None
-    gv = rx.group_vars(rctx.func.node)
+    pfn = common.reply_parser_func(e) or rctx.func
+    gv = rx.group_vars(pfn.node)
     code_g = gv.get('code')
-    for n in walk_own(rctx.func.node):
+    if code_g is None:
+        # the variable the running code is assigned from
+        for a in walk_own(pfn.node):
+            if isinstance(a, ast.Assign) and any(
+                    isinstance(t, ast.Name) and t.id == 'code'
+                    for t in a.targets) and isinstance(a.value, ast.Name):
+                code_g = gv.get(a.value.id, code_g)
+    for n in walk_own(pfn.node):
         if isinstance(n, ast.Compare) and len(n.ops) == 1 and \
                 isinstance(n.comparators[0], ast.Constant) and \
                 isinstance(n.comparators[0].value, bytes) and \
@@ -566,7 +574,12 @@ def w4(e: Engine, rep: Report):
                 inline=e.inline_same_self(deny=['buffered_recv',
                                                 'raw_recv']), max_depth=3)
     where = ctx.func.qname
-    heads = common.while_heads(g, g.entry.frame)
+    pfn = common.reply_parser_func(e)
+    pframe = g.entry.frame
+    for fr in {n.frame for n in g.nodes}:
+        if pfn is not None and fr.ctx.func is pfn:
+            pframe = fr
+    heads = common.while_heads(g, pframe)
     if len(heads) == 1:
         # one loop that takes a line off the front of the buffer per trip:
         # every trip either reads more input or consumes a whole, non-empty
